@@ -157,6 +157,13 @@ class Hier:
             self._new_case(d, decoy % k)
             s['cases'].insert(rng.below(len(s['cases']) + 1), "'%s'" % (lit % k))
         if rng.chance(0.25):
+            # a file name containing '#' (an ordinary character inside a name: regression of FIX-C16-2); a decoy named by the
+            # part before the '#' exists beside it and is NOT listed
+            k = len(self.suites)
+            self._new_case(d, 'h%d#x.case' % k)
+            self._new_case(d, 'h%d' % k)
+            s['cases'].insert(rng.below(len(s['cases']) + 1), rng.choice(['h%d#x.case', "'h%d#x.case'"]) % k)
+        if rng.chance(0.25):
             # a glob whose matches span several directories: the matches are sorted BY PATH, and the file names alone are
             # ordered differently from the paths (grp_a/z, grp_a/m, grp_b/a ...)
             k = len(self.suites)
